@@ -19,9 +19,12 @@ func (sr *segmentReader) ReadSegment() (segment, error) {
 			}
 
 			if b == 0xFF {
-				b, err = sr.reader.ReadByte()
-				if err != nil {
-					return segment{}, err
+				// Skip fill bytes (0xFF) preceding a marker
+				for b == 0xFF {
+					b, err = sr.reader.ReadByte()
+					if err != nil {
+						return segment{}, err
+					}
 				}
 
 				if b != 0x00 {
